@@ -55,6 +55,8 @@ structure Fc11Laws (P : Client → Prop) : Prop where
         (¬ (c.sendQuota = 0 ∧ 0 < c.maxSend) → P (decSend { c with inflight := c.inflight ++ [out] })) ∧
         (c.sendQuota = 0 → 0 < c.maxSend →
           P (flSet (decSend { c with inflight := c.inflight ++ [out] }) { out with expiry := -1 }).1)
+  /-- a new object with empty records and full quotas -/
+  fresh : ∀ c : Client, c.inflight = [] → c.recvQuota = c.maxRecv → c.sendQuota = c.maxSend → P c
   /-- the release of a deferred message by `nextImmediate` -/
   next : ∀ c : Client, ObjWF c → P c → ∀ m ∈ c.inflight, m.expiry < 0 → c.sendQuota > 0 →
         P (decSend (flDelete c m.id).1)
@@ -1032,7 +1034,7 @@ theorem receivePacket_fc (L : Fc11Laws P) (s : Server) (i : Nat) (pk : InPk) (hw
     · exact hr.1
 
 theorem recvOn_fc (L : Fc11Laws P) (s : Server) (c : Nat) (pk : InPk) (b : Bool) (hwf : WF s)
-    (hst : ∀ e ∈ s.rmsgs, fc11MsgOK e.2)
+    (hst : (∃ id si fs, pk = .subscribe id si fs) → ∀ e ∈ s.rmsgs, fc11MsgOK e.2)
     (hg : ∀ i, assocGet s.connOf c = some i → fc11PkOK P s i pk) : Fc11G P s (recvOn s c pk b).1 := by
   unfold recvOn
   split
@@ -1042,7 +1044,7 @@ theorem recvOn_fc (L : Fc11Laws P) (s : Server) (c : Nat) (pk : InPk) (b : Bool)
     · exact Fc11G.refl s
     · split
       rename_i s1 o e heq
-      have h1 := receivePacket_fc L s i pk hwf.allWF (fun _ => hst) (hg i hc)
+      have h1 := receivePacket_fc L s i pk hwf.allWF hst (hg i hc)
       rw [heq] at h1
       have w1 : WF s1 := by
         have := receivePacket_wf s i pk hwf
@@ -1078,5 +1080,351 @@ theorem recvOn_fc (L : Fc11Laws P) (s : Server) (c : Nat) (pk : InPk) (b : Bool)
                 exact h12.trans this
               · exact h12
           · exact h1
+
+/-! ### connecting under a client id that is not in the Clients map -/
+
+/-- the invariant: every registered object satisfies `P` -/
+def Fc11Inv (P : Client → Prop) (s : Server) : Prop := ∀ k, Fc11Reg s k → P (getObj s k)
+
+theorem Fc11Inv.of_fc {s s' : Server} (h : Fc11Inv P s) (g : Fc11G P s s') : Fc11Inv P s' :=
+  fun k r => g.keep k r (h k (r.of_sublist g.clients))
+
+/-- `Clients.Add` of object `i` under the CONNECT's id, one more connected client -/
+def fc11Added (s : Server) (i : Nat) (k : Connect) : Server :=
+  { ({ s with info := { s.info with connected := s.info.connected + 1 } } : Server) with
+    clients := assocSet s.clients k.id i }
+
+theorem admitA_fresh (s : Server) (i : Nat) (k : Connect) (h : assocGet s.clients k.id = none) :
+    admitA s i k = (fc11Added s i k, [], false, none) := by
+  unfold admitA fc11Added
+  simp only [h]
+
+theorem admitC_absent (s : Server) (i : Nat) (k : Connect) :
+    (admitC s i k false).1 = { s with willDelayed := assocDel s.willDelayed k.id } := by
+  unfold admitC
+  simp
+
+theorem admitClient_fc_inv (L : Fc11Laws P) (s : Server) (i conn : Nat) (k : Connect)
+    (hfresh : assocGet s.clients k.id = none) (hi : P (getObj s i)) (h : Fc11Inv P s) :
+    Fc11Inv P (admitClient s i conn k).1 := by
+  unfold admitClient
+  rw [admitA_fresh s i k hfresh]
+  dsimp only []
+  have g2 := admitConnack_fc L (fc11Added s i k) i conn false
+  have h1 : Fc11Inv P (fc11Added s i k) := by
+    intro j ⟨id, hm⟩
+    have hm : (id, j) ∈ assocSet s.clients k.id i := hm
+    rcases mem_assocSet _ _ _ _ hm with hm | hm
+    · exact h j ⟨id, hm⟩
+    · cases hm; exact hi
+  have h2' := h1.of_fc g2
+  rw [admitC_absent]
+  exact fun j r => h2' j r
+
+theorem fc11_barrier (L : Fc11Laws P) {s1 : Server} {o : List Out} (conn : Nat) (b : Bool) (w1 : WF s1)
+    (h1 : Fc11Inv P s1) :
+    Fc11Inv P (if b = true then
+          match recvOn s1 conn InPk.pingreq false with
+          | (s, o2) => (s, o ++ o2.filter (fun x => match x with | .wrote _ .pingresp => false | _ => true))
+        else (s1, o)).1 := by
+  split
+  · split
+    rename_i s2 o2 h2
+    have := recvOn_fc L s1 conn .pingreq false w1 (fun h => by obtain ⟨_, _, _, h⟩ := h; cases h)
+      (fun _ _ => trivial)
+    rw [h2] at this
+    exact h1.of_fc this
+  · exact h1
+
+theorem fc11_parseConnect (L : Fc11Laws P) (s : Server) (conn : Nat) (k : Connect) : P (parseConnect s conn k) :=
+  L.fresh _ rfl rfl rfl
+
+theorem Fc11Inv.addObj {s : Server} (h : Fc11Inv P s) (hwf : WF s) (c : Client) (conn : Nat) :
+    Fc11Inv P { s with objs := s.objs ++ [c], connOf := s.connOf ++ [(conn, s.objs.length)] } := by
+  intro j ⟨id, hm⟩
+  have hm' : (id, j) ∈ s.clients := hm
+  have hlt := (hwf.clients_valid id j hm').1
+  rw [getObj_append_lt (s := s) (c := c) rfl j hlt]
+  exact h j ⟨id, hm'⟩
+
+theorem connect_fc_inv (L : Fc11Laws P) (s : Server) (conn : Nat) (k : Connect) (hwf : WF s)
+    (hfresh : assocGet s.clients k.id = none) (h : Fc11Inv P s) : Fc11Inv P (connect s conn k).1 := by
+  unfold connect
+  extract_lets +onlyGivenNames c i s1
+  have h1 : Fc11Inv P s1 := h.addObj hwf c conn
+  have hgi : getObj s1 i = c := getObj_append_eq (s := s) (s' := s1) (c := c) rfl
+  split
+  · split
+    rename_i s2 o2 h2
+    have := stopClient_fc L s1 i
+    rw [h2] at this
+    exact h1.of_fc this
+  · exact admitClient_fc_inv L s1 i conn k hfresh (by rw [hgi]; exact fc11_parseConnect L s conn k) h1
+
+theorem Fc11Inv.addPending {s : Server} (h : Fc11Inv P s) (p : Pending) :
+    Fc11Inv P { s with pending := s.pending ++ [p] } := h
+
+theorem connectHold_fc_inv (L : Fc11Laws P) (s : Server) (conn : Nat) (k : Connect) (stage : Nat) (hwf : WF s)
+    (hfresh : assocGet s.clients k.id = none) (h : Fc11Inv P s) : Fc11Inv P (connectHold s conn k stage).1 := by
+  unfold connectHold
+  extract_lets +onlyGivenNames c i s1 dec
+  have h1 : Fc11Inv P s1 := h.addObj hwf c conn
+  have hgi : getObj s1 i = c := getObj_append_eq (s := s) (s' := s1) (c := c) rfl
+  generalize dec = d
+  cases d with
+  | some code =>
+    refine ite_fst_prop (P := Fc11Inv P) _ _ _ ?_ ?_
+    · exact h1
+    · extract_lets +onlyGivenNames o
+      split
+      rename_i s2 o2 h2
+      have := stopClient_fc L s1 i
+      rw [h2] at this
+      exact h1.of_fc this
+  | none =>
+    refine ite_fst_prop (P := Fc11Inv P) _ _ _ ?_ ?_
+    · exact h1
+    · have hf1 : assocGet s1.clients k.id = none := hfresh
+      rw [admitA_fresh s1 i k hf1]
+      dsimp only []
+      intro j ⟨id, hm⟩
+      have hm : (id, j) ∈ assocSet s1.clients k.id i := hm
+      show P (getObj (fc11Added s1 i k) j)
+      rcases mem_assocSet _ _ _ _ hm with hm | hm
+      · exact h1 j ⟨id, hm⟩
+      · cases hm
+        show P (getObj s1 i)
+        rw [hgi]; exact fc11_parseConnect L s conn k
+
+/-- the local condition on a parked CONNECT that is released -/
+def fc11PendOK (P : Client → Prop) (s : Server) (p : Pending) : Prop :=
+  if p.stage == 1 then p.refuse.isSome = true ∨ (assocGet s.clients p.k.id = none ∧ P (getObj s p.obj))
+  else p.present = false
+
+theorem connectRelease_fc_inv (L : Fc11Laws P) (s : Server) (p : Pending) (hg : fc11PendOK P s p)
+    (h : Fc11Inv P s) : Fc11Inv P (connectRelease s p).1 := by
+  unfold connectRelease
+  unfold fc11PendOK at hg
+  split
+  · rename_i h1
+    rw [if_pos h1] at hg
+    split
+    · split
+      rename_i s2 o2 h2
+      have := stopClient_fc L s p.obj
+      rw [h2] at this
+      exact h.of_fc this
+    · rename_i hr
+      rcases hg with hg | hg
+      · rw [hr] at hg; cases hg
+      · exact admitClient_fc_inv L s p.obj p.conn p.k hg.1 hg.2 h
+  · rename_i h1
+    rw [if_neg h1] at hg
+    split
+    · exact fun j r => h j r
+    · split
+      rename_i s2 o2 h2
+      have g2 := admitConnack_fc L s p.obj p.conn p.present
+      rw [h2] at g2
+      split
+      rename_i s3 o3 h3
+      have : s3 = (admitC s2 p.obj p.k p.present).1 := by rw [h3]
+      rw [this, hg, admitC_absent]
+      exact fun j r => (h.of_fc g2) j r
+
+/-! ### the guard on ops and the step theorem -/
+
+/-- **the local condition on an op** (decidable when `P` is): the op's own acknowledgement handling keeps `P` on the
+    acting client (`fc11PkOK`), a CONNECT uses a client id that is not in the Clients map (no take-over, no
+    resumption), a released parked CONNECT likewise (`fc11PendOK`), and an in-flight housekeeping tick drops no
+    record that `P` depends on. -/
+def fc11OpOK (P : Client → Prop) (s : Server) : Op → Prop
+  | .connect _ k => assocGet s.clients k.id = none
+  | .connectHold _ k _ => assocGet s.clients k.id = none
+  | .recv conn pk => ∀ i, assocGet s.connOf conn = some i → fc11PkOK P s i pk
+  | .recvCut conn pk => ∀ i, assocGet s.connOf conn = some i →
+      fc11PkOK P (modObj s i (fun c => { c with peerGone := true })) i pk
+  | .release conn =>
+    match s.pending.find? (·.conn == conn) with
+    | some p => fc11PendOK P { s with pending := s.pending.filter (·.conn != conn) } p
+    | none => True
+  | .tick kind t => kind = "inflight" → ∀ k, Fc11Reg s k → P (getObj s k) → P (getObj (tickInflight s t) k)
+  | .inlinePublish topic payload retain qos => fc11PkOK P s 0 (.publish qos false retain qos topic payload 0 none)
+  | _ => True
+
+theorem fc11_step (L : Fc11Laws P) (s : Server) (op : Op) (hwf : WF s) (hf : OpFresh s op) (hst : Fc11Store s)
+    (hg : fc11OpOK P s op) (h : Fc11Inv P s) : Fc11Inv P (step s op).1 := by
+  cases op with
+  | connect conn k =>
+    rw [step]
+    split
+    rename_i s1 o h1
+    have i1 : Fc11Inv P s1 := by
+      have := connect_fc_inv L s conn k hwf hg h
+      rw [h1] at this; exact this
+    have w1 : WF s1 := by
+      have := connect_wf s conn k hwf hf
+      rw [h1] at this; exact this
+    split
+    · exact fc11_barrier L conn _ w1 i1
+    · exact i1
+  | recv conn pk =>
+    rw [step]
+    exact h.of_fc (recvOn_fc L s conn pk true hwf (fun _ => hst.1) hg)
+  | drop conn =>
+    rw [step]
+    split
+    · exact h
+    · rename_i i _
+      split
+      · exact h
+      · extract_lets +onlyGivenNames s1
+        have g1 : Fc11G P s s1 := (Fc11G.refl s).mod i _ (L.ext _ _ rfl rfl rfl rfl rfl)
+        have w1 : WF s1 := hwf.of_good ((Good.refl s).mod i _ (by cw_rfl))
+        split
+        rename_i s2 o h2
+        have := detach_fc L s1 i true w1
+        rw [h2] at this
+        exact h.of_fc (g1.trans this)
+  | recvCut conn pk =>
+    rw [step]
+    split
+    · exact h
+    · rename_i i hc
+      split
+      · exact h
+      · extract_lets +onlyGivenNames s1
+        have g1 : Fc11G P s s1 := (Fc11G.refl s).mod i _ (L.ext _ _ rfl rfl rfl rfl rfl)
+        have w1 : WF s1 := hwf.of_good ((Good.refl s).mod i _ (by cw_rfl))
+        split
+        rename_i s2 o h2
+        have g2 : Fc11G P s s2 := by
+          have := recvOn_fc L s1 conn pk false w1 (fun _ => hst.1) (fun j hj => by
+            have hj' : assocGet s.connOf conn = some j := hj
+            rw [hc] at hj'
+            cases hj'
+            exact hg i hc)
+          rw [h2] at this
+          exact g1.trans this
+        have w2 : WF s2 := by
+          have := recvOn_wf s1 conn pk false w1
+          rw [h2] at this; exact this
+        split
+        rename_i s3 o2 h3
+        show Fc11Inv P s3
+        split at h3
+        · cases h3; exact h.of_fc g2
+        · have := detach_fc L s2 i true w2
+          rw [h3] at this
+          exact h.of_fc (g2.trans this)
+  | dropHold conn =>
+    rw [step]
+    split
+    · exact h
+    · rename_i i _
+      split
+      · exact h
+      · extract_lets +onlyGivenNames s1
+        have g1 : Fc11G P s s1 := (Fc11G.refl s).mod i _ (L.ext _ _ rfl rfl rfl rfl rfl)
+        split
+        rename_i s2 o h2
+        have := detachA_fc L s1 i true
+        rw [h2] at this
+        exact h.of_fc ((g1.trans this).upd rfl rfl)
+  | release conn =>
+    rw [step]
+    have hg' : (match s.pending.find? (·.conn == conn) with
+      | some p => fc11PendOK P { s with pending := s.pending.filter (·.conn != conn) } p
+      | none => True) := hg
+    clear hg
+    split
+    · rename_i p hp
+      rw [hp] at hg'
+      have hg : fc11PendOK P { s with pending := s.pending.filter (·.conn != conn) } p := hg'
+      have hmem : p ∈ s.pending := List.mem_of_find?_eq_some hp
+      have hv := hwf.pending_valid p hmem
+      have w0 : WF { s with pending := s.pending.filter (·.conn != conn) } := hwf.filterPending _
+      split
+      rename_i s1 o h1
+      have w1 : WF s1 := by
+        have := (connectRelease_wf _ p w0 hv.1 hv.2).1
+        rw [h1] at this; exact this
+      have i1 : Fc11Inv P s1 := by
+        have := connectRelease_fc_inv L _ p hg (fun j r => h j r)
+        rw [h1] at this; exact this
+      exact fc11_barrier L conn _ w1 i1
+    · split
+      · exact h
+      · rename_i i _
+        split
+        · have w0 : WF { s with parked := s.parked.filter (· != i) } := hwf.upd rfl rfl rfl rfl
+          exact Fc11Inv.of_fc (s := { s with parked := s.parked.filter (· != i) }) (fun j r => h j r)
+            (detachB_fc L _ i w0)
+        · split
+          · split
+            rename_i s1 o h1
+            have w0 : WF { s with parkedEarly := s.parkedEarly.filter (· != i) } := hwf.upd rfl rfl rfl rfl
+            have := detach_fc L { s with parkedEarly := s.parkedEarly.filter (· != i) } i true w0
+            rw [h1] at this
+            exact Fc11Inv.of_fc (s := { s with parkedEarly := s.parkedEarly.filter (· != i) }) (fun j r => h j r) this
+          · exact h
+  | dropHoldEarly conn =>
+    rw [step]
+    split
+    · exact h
+    · rename_i i _
+      split
+      · exact h
+      · have g0 : Fc11G P s { s with parkedEarly := s.parkedEarly ++ [i] } := (Fc11G.refl s).upd rfl rfl
+        exact h.of_fc (g0.mod i (fun c => { c with peerGone := true }) (L.ext _ _ rfl rfl rfl rfl rfl))
+  | connectHold conn k stage =>
+    rw [step]
+    exact connectHold_fc_inv L s conn k stage hwf hg h
+  | tick kind t =>
+    rw [step]
+    split
+    · exact h.of_fc (tickClients_fc L s t hwf)
+    · split
+      · exact h.of_fc (tickRetained_fc s t)
+      · split
+        · rename_i hk
+          have hk' : kind = "inflight" := by simpa using hk
+          exact h.of_fc ⟨(tickInflight_good s t).clients,
+            fun k r x => hg hk' k (r.of_sublist (tickInflight_good s t).clients) x⟩
+        · split
+          · exact h.of_fc (tickWills_fc L s t hst.2)
+          · exact h
+  | inlinePublish topic payload retain qos =>
+    rw [step]
+    exact h.of_fc (receivePacket_fc L s 0 _ hwf.allWF (fun _ => hst.1) hg)
+  | inlineSubscribe id filter =>
+    rw [step]
+    split
+    · exact h
+    · exact h.of_fc ((Fc11G.refl s).upd rfl rfl)
+  | inlineUnsubscribe id filter =>
+    rw [step]
+    split
+    · exact h
+    · exact h.of_fc ((Fc11G.refl s).upd rfl rfl)
+
+/-- every op of the history satisfies the side conditions in the state it is applied to -/
+def fc11OpsOK (P : Client → Prop) (s : Server) : List Op → Prop
+  | [] => True
+  | op :: ops => OpFresh s op ∧ Fc11Store s ∧ fc11OpOK P s op ∧ fc11OpsOK P (step s op).1 ops
+
+theorem fc11_run (L : Fc11Laws P) (s : Server) (ops : List Op) (hwf : WF s) (h : Fc11Inv P s)
+    (hg : fc11OpsOK P s ops) : Fc11Inv P (run s ops) := by
+  induction ops generalizing s with
+  | nil => exact h
+  | cons op ops ih =>
+    show Fc11Inv P (run (step s op).1 ops)
+    exact ih _ (WF_step s op hwf hg.1) (fc11_step L s op hwf hg.1 hg.2.1 hg.2.2.1 h) hg.2.2.2
+
+theorem fc11_init (L : Fc11Laws P) (caps : Caps) : Fc11Inv P (init caps) := by
+  intro k ⟨id, hm⟩
+  have : (id, k) = (inlineID, 0) := List.mem_singleton.mp hm
+  cases this
+  exact L.fresh _ rfl rfl rfl
 
 end Mochi.Broker
